@@ -233,8 +233,8 @@ type causeHandler struct {
 }
 
 func (h *causeHandler) Enabled(context.Context, slog.Level) bool { return true }
-func (h *causeHandler) WithAttrs([]slog.Attr) slog.Handler        { return h }
-func (h *causeHandler) WithGroup(string) slog.Handler             { return h }
+func (h *causeHandler) WithAttrs([]slog.Attr) slog.Handler       { return h }
+func (h *causeHandler) WithGroup(string) slog.Handler            { return h }
 func (h *causeHandler) Handle(_ context.Context, r slog.Record) error {
 	if r.Message != "Scrape failed" && r.Message != "Append failed" && r.Message != "Appending scrape report failed" && r.Message != "Scrape commit failed" {
 		return nil
@@ -1152,8 +1152,8 @@ func analyse(c *core.Case, t *target, sess []*session, anyRemoved bool) stats {
 		i = j
 	}
 
-	tracked := map[string]bool{}      // series that must be marked stale when they vanish
-	maybe := map[string]bool{}        // series that may be marked stale (tracking state unknown)
+	tracked := map[string]bool{} // series that must be marked stale when they vanish
+	maybe := map[string]bool{}   // series that may be marked stale (tracking state unknown)
 	var lastT int64 = math.MinInt64
 	var hist []string // summaries of the last scrapes, for witnesses
 	for _, sc := range scrapes {
